@@ -42,6 +42,9 @@ func parseKind(kind, s string, zone bool) parseRes {
 	isNil := false
 	p, site, msg := protect(func() {
 		b := literal.DefaultBuilder()
+		if litBound > 0 {
+			b = literal.NewBoundedBuilder(litBound)
+		}
 		switch kind {
 		case "node":
 			var n *node.Node
@@ -135,8 +138,14 @@ type PEvent struct {
 	RV      []Rec  `json:"rv"`
 }
 
+// litBound > 0: literals are parsed with literal.NewBoundedBuilder(litBound) (the builder `bw load` uses)
+var litBound int
+
 func parseCase(kind, in, src string) {
 	key := kind + "\x00" + in
+	if litBound > 0 {
+		key = "bounded" + itoa(litBound) + "\x00" + key
+	}
 	if seen[key] {
 		stat("dup")
 		return
@@ -320,6 +329,34 @@ func runParse(candFile string) {
 			altSpellings(s, func(m string) { parseCase(k, m, "alt") })
 		}
 	}
+	// 4b. the bounded literal builder: texts and blobs shorter than, as long as and longer than the bound, alone, as
+	// objects and inside triples; every printed literal / triple of the universe again
+	for _, bound := range []int{1, 5} {
+		litBound = bound
+		for n := 0; n <= bound+3; n++ {
+			txt := strings.Repeat("a", n)
+			var bs []string
+			for j := 0; j < n; j++ {
+				bs = append(bs, itoa(j+1))
+			}
+			for _, l := range []string{"\"" + txt + "\"^^type:text", "\"[" + strings.Join(bs, " ") + "]\"^^type:blob",
+				"\"" + strings.Repeat("1", n+1) + "\"^^type:int64", "\"true\"^^type:bool", "\"1." + strings.Repeat("5", n) + "\"^^type:float64"} {
+				parseCase("lit", l, "bounded")
+				parseCase("obj", l, "bounded")
+				parseCase("triple", "/a<b>\t\"p\"@[]\t"+l, "bounded")
+			}
+		}
+		for _, sp := range univ.Values {
+			v, err := build(sp)
+			if err != nil || (v.K != "lit" && v.K != "triple") {
+				continue
+			}
+			if s, p, _, _ := printValue(v); !p && len(s) < 400 {
+				parseCase(v.K, s, "bounded")
+			}
+		}
+	}
+	litBound = 0
 	// 5. random strings
 	n := 6000
 	if thorough {
